@@ -980,6 +980,9 @@ class Checksums(productmd.common.MetadataBase):
             for path, value in parser.items(self._section):
                 path = self._fix_path(path)
                 if ":" not in value:
+                    # a digest without a type is told by its length; it has to be a digest
+                    if not re.match(r"^[0-9a-fA-F]+\Z", value):
+                        raise ValueError("Checksum of unknown type for path '%s': %s" % (path, value))
                     if len(value) == 32:
                         checksum_type, checksum = "md5", value
                     elif len(value) == 40:
